@@ -115,7 +115,7 @@ def gen_spec(rng, tier_quick):
     ring = rng.choice([0, 1, 5, 16])
     kept = [n for n in seen if FRAG_BY_NAME[n][2] and ring and rng.random() < 0.6]
     return {"frags": seen, "kept": kept, "ring": ring, "wrap": rng.choice(WRAPS),
-            "ballast": rng.choice([0, 0, 0, 300, 1500] if tier_quick else [0, 0, 300, 1500, 4000, 9000]),
+            "ballast": rng.choice([0, 0, 0, 300, 1500] if tier_quick else [0, 0, 300, 1500, 4000]),
             "probe": rng.choice([0, 7, 50])}
 
 
@@ -237,7 +237,7 @@ class Run:
 
 
 def sizes(quick):
-    return {"rel": (240, 480) if quick else (600, 1200), "dbg": (24, 48) if quick else (36, 72)}
+    return {"rel": (240, 480) if quick else (360, 720), "dbg": (24, 48) if quick else (30, 60)}
 
 
 def check_programs(ctx, specs, quick, tag, want_pacing=True):
@@ -253,7 +253,7 @@ def check_programs(ctx, specs, quick, tag, want_pacing=True):
     for sp in specs:
         lines_rel.append("c16 log=1,dropvm=1 " + hx(render(sp, n1)))
         lines_rel.append("c16 dropvm=1 " + hx(render(sp, n2)))
-        dsp = dict(sp, ballast=min(sp["ballast"], 300 if quick else 1500))
+        dsp = dict(sp, ballast=min(sp["ballast"], 300))   # collect-at-every-allocation: keep the heap small
         lines_dbg.append("c16 log=1,dropvm=1 " + hx(render(dsp, d1)))
         lines_dbg.append("c16 dropvm=1 " + hx(render(dsp, d2)))
     import time
@@ -291,8 +291,11 @@ def check_programs(ctx, specs, quick, tag, want_pacing=True):
                 if nr > cache:
                     probs.append(("violation", "more than RANGE_CACHE_SIZE ranges are rooted after the run (%s build, %d iterations)" % (build, n),
                                   "%d rooted ObjRange > %d" % (nr, cache)))
-                if r.D != [0, 0, 0]:
+                if r.D and (r.D[0] or r.D[2]):
                     probs.append(("violation", "boxes survive dropping the Vm and collecting: a root count did not return to zero (%s build, %d iterations)" % (build, n),
+                                  "objects, bytes, rooted = %s" % r.D))
+                elif r.D != [0, 0, 0]:
+                    probs.append(("violation", "bytes_allocated is not zero when the heap is empty (after dropping the Vm and collecting; %s build, %d iterations)" % (build, n),
                                   "objects, bytes, rooted = %s" % r.D))
                 if r.S and r.T is not None and r.S[0] != r.T:
                     probs.append(("violation", "bytes_allocated is not the sum of the sizes of the live boxes after the final collection: the heap is paced on a wrong size (%s build, %d iterations)" % (build, n),
@@ -315,7 +318,7 @@ def check_programs(ctx, specs, quick, tag, want_pacing=True):
             term_ix.append(ix)
             terms.append(pacing_term(rl, c))
     t2 = time.time()
-    vals = yvlib.coq_eval(["YV:PacingRun"], terms, shard_size=max(1, min(8, (len(terms) + yvlib.NPROC - 1) // yvlib.NPROC)),
+    vals = yvlib.coq_eval(["YV:PacingRun"], terms, shard_size=max(1, min(3, (len(terms) + yvlib.NPROC - 1) // yvlib.NPROC)),
                           tag="C16" + tag, preamble="Open Scope string_scope.") if terms else []
     log("[C16] replay of %d logs (%d records) in Coq: %.1fs" % (len(terms), sum(r["records"] for r in results), time.time() - t2))
     for ix, val in zip(term_ix, vals):
@@ -364,7 +367,7 @@ def report(ctx, results, limit_v=5):
 def shrink_first(ctx, quick):
     """minimise the loop body of the first loop violation (bounded effort)"""
     v = next((v for v in ctx.violations if v.get("kind") == "loop"), None)
-    if not v:
+    if not v or "timeout" in str(v.get("actual")):
         return
     spec = dict(v["spec"])
     budget = [12]
@@ -430,6 +433,8 @@ def check_range_cases(ctx, cases, tag):
         nent = len([e for e in ents.split(";") if e])
         if len(set(ids)) > len(set(reqs)):
             evict += 1
+        if len(ctx.violations) >= 5:
+            continue
         if not run.ok:
             ctx.violation("range request program failed", input=range_program(reqs), actual=str(rec.result), kind="range", reqs=reqs)
             continue
@@ -479,7 +484,7 @@ def run(ctx):
     if (c.get("HEAP_GROWTH_FACTOR"), c.get("HEAP_INIT_BYTES_MAX")) != (STATED_GROWTH, STATED_INIT):
         ctx.notes.append("constants in common.rs (%s, %s) differ from the property text (2, 65536): the bound is checked with the stated ones" % (
             c.get("HEAP_GROWTH_FACTOR"), c.get("HEAP_INIT_BYTES_MAX")))
-    nprog = 40 if quick else 420
+    nprog = 40 if quick else 200
     cycle_ok = bound_method_cycle(ctx)
     specs = []
     # every fragment alone once (kept in a ring when it can be), then random combinations
@@ -531,11 +536,11 @@ def search(ctx):
     ctx.tier = "thorough"
     try:
         rng = ctx.rng
-        specs = [dict(gen_spec(rng, False), ballast=rng.choice([1500, 4000, 9000])) for _ in range(60)]
+        specs = [dict(gen_spec(rng, False), ballast=rng.choice([1500, 4000])) for _ in range(32)]
         results = check_programs(ctx, specs, False, "search")
         report(ctx, results)
         if not ctx.violations:
-            check_range_cases(ctx, [gen_range_case(rng) for _ in range(200)], "search")
+            check_range_cases(ctx, [gen_range_case(rng) for _ in range(100)], "search")
         shrink_first(ctx, False)
     finally:
         ctx.tier = old
